@@ -9,9 +9,10 @@ ENGINES = [
 ]
 PENDING = 'not yet claimed: machinery for this property is still being built (see DESIGN.md §10 build order)'
 NOT_APPLICABLE = {
-    'C01': PENDING, 'C02': PENDING, 'C03': PENDING, 'C04': PENDING, 'C05': PENDING, 'C06': PENDING,
-    'C08': PENDING, 'C09': PENDING, 'C11': PENDING, 'C12': PENDING, 'C13': PENDING,
-    'C16': PENDING, 'C18': PENDING, 'C19': PENDING,
+    'C03': 'Whole-trace property (every row of the finalised main + auxiliary trace satisfies every constraint and boundary assertion). Both sides are under contract separately and meet in the hub - C04 pins each stack constraint to its documented polynomial, C05/C07/C13 pin each operation\'s next state, helper registers and decoder rows - but the composition runs through finalize_trace / into_trace / fill_trace and the aux-column builders (column transposition over Vec<Vec<Felt>>, iterator chains, closures, hasher/bitwise/range chiplet tables, random rows), which are outside the subset the extraction can bring to Verus; no function contract within reach states "for all rows of the finished trace". A bounded prove-and-verify run would be a different technique. Not claimed.',
+    'C11': 'The assembler core (ProcedureCache / ModuleProvider over BTreeMap, AssemblyContext call-set bookkeeping, generic validate_param<I, R: RangeBounds>, string-keyed lookups, closures) is outside the Verus subset; history-independence and call-set closure are whole-history properties of that state. The two defects found in this area (F2 local index with 0 locals, F14 call inside a syscall) were found by contract attempts / reading and repaired; what the assembler emits for each instruction is decided under C05 (unit masm_instr*) and C06 (bounded lowering). A bounded compile-twice harness alone would be a different technique. Not claimed.',
+    'C12': 'Multiset balance of all lookups is a whole-trace algebraic identity over running-product / LogUp columns for every challenge; the aux-trace builders (processor/src/*/aux_trace) are iterator/closure code over whole columns and the AIR of this version does not constrain most of these columns. No per-function contract within reach expresses it. Not claimed.',
+    'C18': 'truncate_stack, memcopy, pipe_* and the SMT / MMR procedures are loops over memory with hperm / mtree_* / advice-map operations; the MAST-lemma engine (E2) handles straight-line spans and splits over the field / u32 / stack operations only (no loop invariants over exec_rel at the masm level, no hasher or Merkle-store model). Not claimed.',
     'C17': 'BLAKE3/SHA-256/Keccak-256 masm programs (800-3500 straight-line u32 ops) vs reference functions is a full bit-vector equivalence of compression functions; no function contract within reach of Verus/Z3 or Kani decides it (DESIGN §7 C17)',
 }
 META = {
